@@ -39,11 +39,14 @@ STYLE_CONFIGS = [{"fmt": "srt", "tf": 1}, {"fmt": "srt", "tf": 0}, {"fmt": "vtt"
 
 def run(ctx):
   thorough = ctx.thorough()
+  if ctx.replay_case:
+    C.replay(ctx, PID)
+    return
   ctx.rule = ("a case is one document written under one writer configuration; distinct by (document, configuration); "
               "non-trivial = the output has at least one cue or the writer raised; style shapes come from the TLC state "
               "dump of CuesShapes.tla, random documents from the seeded generator")
   # 1. design level: the acceptors
-  res = T.run_tlc("Cues", CFG_ACCEPTOR.format(n=9 if thorough else 7), workers=4, timeout=3000, coverage=True, name="acceptor")
+  res = T.run_tlc("Cues", CFG_ACCEPTOR.format(n=10 if thorough else 7), workers=4, timeout=3000, coverage=True, name="acceptor")
   if res.violated:
     raise T.MachineryError("Cues.tla: the acceptor violates its design-level invariants: " + str(res.violated))
   ctx.tlc(res, "acceptor machines over all line sequences up to the bound")
@@ -58,7 +61,7 @@ def run(ctx):
     cases.append(("style", s, G.shape_doc(s), cfgs))
 
   # 3. code -> spec: random documents
-  ndocs = 1500 if thorough else 70
+  ndocs = 2500 if thorough else 70
   for _ in range(ndocs):
     adoc = G.random_doc(ctx.rng, rich=True)
     if thorough:
